@@ -175,6 +175,8 @@ type c12World struct {
 	// certificates whose NotAfter is below shardEdge go to shard 0
 	tlc       *client.TemporalLogClient
 	shardKey  *oracle.Key // key of shard 1
+	rootsA    [][]byte    // the roots list served by the log / shard 0, in order, repeats included
+	rootsB    [][]byte    // the same for shard 1
 	shardEdge time.Time
 	shardLo   time.Time // lower bound of shard 0 (zero: none)
 	shardHi   time.Time // upper bound of shard 1 (zero: none)
@@ -344,6 +346,19 @@ func (w *c12World) Init(s *kernel.Sim) {
 		// and a precertificate that certainly comes from the precert-signing certificate
 		w.subs = append(w.subs, w.pki.newSubmissionVia(t, 102, true, true, 1))
 	}
+
+	// what the two shards list as their roots: usually the one root (shard 1: one more), in one run in three a longer
+	// list in which a certificate may stand twice, anywhere (RFC 6962 s4.7 says "a list", not a set)
+	w.rootsA = [][]byte{w.pki.root.DER}
+	if t.Chance(1, 3) {
+		pool := [][]byte{w.pki.root.DER, w.subs[0].leaf.DER, w.subs[1].leaf.DER}
+		w.rootsA = nil
+		for n := t.Range(2, 5); n > 0; n-- {
+			w.rootsA = append(w.rootsA, pool[t.Intn(len(pool))])
+		}
+		w.s.Probe("c12.roots-list-with-repeats")
+	}
+	w.rootsB = append(append([][]byte{}, w.rootsA...), w.subs[0].leaf.DER) // the union is not either answer
 
 	opts := jsonclient.Options{Logger: quietLogger{}}
 	pemOf := func(k *oracle.Key) string {
@@ -656,9 +671,13 @@ func (w *c12World) honest(op *c12Op, c *rtCall) *hon {
 		}
 		h.obj = map[string]any{"entries": list}
 	case "get-roots":
-		certs := []any{b64(w.pki.root.DER)}
+		list := w.rootsA
 		if key == w.shardKey {
-			certs = append(certs, b64(w.subs[0].leaf.DER)) // the second shard accepts one more "root": the union is not either answer
+			list = w.rootsB // the second shard accepts one more "root"
+		}
+		var certs []any
+		for _, d := range list {
+			certs = append(certs, b64(d))
 		}
 		h.obj = map[string]any{"certificates": certs}
 	case "get-entry-and-proof":
